@@ -211,13 +211,13 @@ package xmpp
 //@ pred ackedPrefix(q, h, k) := 0 <= k && k <= len(q.Uslice) && forall(i, 0, k, q.Uslice[i].Id <= h) && forall(i, k, len(q.Uslice), q.Uslice[i].Id > h)
 //@ func xmpp.SendMissingStz(lastSent, s, uaq) (err)
 //@   requires s != nil
-//@   requires wfQueue(uaq) && (uaq != nil ==> uaq == senderQueue(s) && !locked(addr(uaq.RWMutex)))
+//@   requires wfQueue(uaq) && (uaq != nil ==> uaq == senderQueue(s))
 //@   ensures [C05.nilqueue] uaq == nil ==> err == nil && count(Send) == old(count(Send)) && count(SendRaw) == old(count(SendRaw))
 //@   ensures [C10.ack.empty]   (uaq != nil && old(len(uaq.Uslice)) == 0) ==> err == nil && count(Send) == old(count(Send)) && count(SendRaw) == old(count(SendRaw)) && len(uaq.Uslice) == 0
 //@   ensures [C10.ack.dropped] (uaq != nil && err == nil) ==> exists(k, 0, old(len(uaq.Uslice)) + 1, old(ackedPrefix(uaq, lastSent, k)) && len(uaq.Uslice) == old(len(uaq.Uslice)) - k && forall(i, 0, len(uaq.Uslice), uaq.Uslice[i].Stz == old(uaq.Uslice[i + k].Stz)))
 //@   ensures [C10.ack.resent]  (uaq != nil && err == nil) ==> exists(k, 0, old(len(uaq.Uslice)) + 1, old(ackedPrefix(uaq, lastSent, k)) && count(SendRaw) - old(count(SendRaw)) == old(len(uaq.Uslice)) - k && forall(i, 0, old(len(uaq.Uslice)) - k, arg(SendRaw, old(count(SendRaw)) + i, 1) == old(uaq.Uslice[i + k].Stz)))
 //@   ensures [C10.ack.request] (uaq != nil && err == nil) ==> (count(Send) - old(count(Send)) == ite(count(SendRaw) > old(count(SendRaw)), 1, 0)) && (count(Send) > old(count(Send)) ==> typeof(last(Send, 1)) == stanza.SMRequest && atlast(SendRaw) < atlast(Send))
-//@   ensures [C10.ack.lock]    uaq != nil ==> !locked(addr(uaq.RWMutex))
+//@   ensures [C10.ack.lock]    uaq != nil ==> locked(addr(uaq.RWMutex)) == old(locked(addr(uaq.RWMutex)))
 //@   ensures wfQueue(uaq) && backingOK(uaq)
 //@   assigns uaq.Uslice, senderQueue(s).Uslice, locked(addr(uaq.RWMutex))
 //@   emits Send, SendAttrs, SendRaw, Write
